@@ -12,8 +12,9 @@ Tie, re-run from VERIF_REPO's working tree on every invocation:
      counters, lists, echo); the recorded invocation/response history is checked per key for
      linearizability against the extracted exec (Wing&Gong/Lowe search in ml/clusterrun.ml);
      every echo must come back to its own connection; the VERIFDUMP of the three nodes must be
-     identical at quiescence; every node must still be running.  thorough: more load, and for
-     each node in turn kill -9 during the load, restart, compare again.
+     identical at quiescence; every node must still be running.  thorough: more load, for each
+     node in turn kill -9 during the load, restart, compare again; two scenarios with a -race build
+     of the server (a race-detector report in server/ or raftexample/ code is a violation).
  Known findings (statement replication of SPOP; blocking pops in the apply loop) are replayed on
  the same cluster and printed as KNOWN-FINDING."""
 import collections
@@ -40,6 +41,9 @@ def build():
     return None
 
 
+NONTRIVIAL = set()
+
+
 # ----------------------------------------------------------------------------- (D)
 def apply_tie(d, text, tag="apply"):
     cf = d / (tag + ".cases")
@@ -54,13 +58,23 @@ def apply_tie(d, text, tag="apply"):
     # walk the case file alongside both outputs
     cases = text.split("END\n")
     n, li = 0, 0
+    NONTRIVIAL.clear()
     for case in cases:
         cl = [l for l in case.splitlines() if l.strip()]
         if not cl:
             continue
         li += 1   # CASE line
+        hdr = cl[0].split()
+        base, kinds, prev = int(hdr[2]), (hdr[3] if len(hdr) > 3 else ""), int(hdr[2])
         for wi, w in enumerate(cl[1:]):
             n += 1
+            mb = re.match(r"B (\d+) (\d+)", model_lines[li]) if li < len(model_lines) else None
+            if mb:
+                lo, ln = int(w.split()[1]), int(w.split()[2])
+                # non-trivial: the batch carries entries and either applies some or overlaps the applied prefix
+                if ln > 0 and lo < len(kinds) and (int(mb.group(1)) > 0 or lo < prev - base):
+                    NONTRIVIAL.add((kinds, lo, ln, prev - base))
+                prev = int(mb.group(2))
             a = impl_lines[li] if li < len(impl_lines) else "<implementation died: %s>" % re.sub(r"[^\x20-\x7e]+", " ", log)[-300:]
             b = model_lines[li] if li < len(model_lines) else "<missing>"
             if a != b:
@@ -327,6 +341,12 @@ def scenario(ctx, d, binary, nclients, nops, kill=None, tag="v"):
             return dict(kind="replicas-differ-at-quiescence", lines_and_nodes_holding_them=dict(list(diff.items())[:8]),
                         workload=dict(clients=nclients, ops_per_client=nops, seed=ctx.seed, killed=kill)), None, stats
         stats["dump_lines"] = len(dm[0])
+        nrace, race = scan_races(cluster)
+        stats["race_detector_reports"] = nrace
+        if race:
+            return dict(kind="data-race-in-cluster-path", **race,
+                        workload=dict(clients=nclients, ops_per_client=nops, seed=ctx.seed, killed=kill, race_binary=True),
+                        note="the Go race detector saw unsynchronised access in server/ or raftexample/ code under concurrent clients"), None, stats
         # known findings, replayed on the same cluster (separate keys)
         stats["known"] = replay_known(cluster)
         for i in range(3):
@@ -335,6 +355,19 @@ def scenario(ctx, d, binary, nclients, nops, kill=None, tag="v"):
         return None, None, stats
     finally:
         cluster.close()
+
+
+def scan_races(cluster):
+    """Reports of the Go race detector in the node outputs (only present with a -race binary):
+    (number of reports, first report that involves the cluster path packages server/ or raftexample/)."""
+    n, first = 0, None
+    for i in range(cluster.n):
+        blocks = cluster.output(i, 4000000).split("WARNING: DATA RACE")[1:]
+        n += len(blocks)
+        for b in blocks:
+            if first is None and re.search(r"RedisGO/(server|raftexample)\.", b):
+                first = dict(node=i + 1, report=b[:1800])
+    return n, first
 
 
 def replay_known(cluster):
@@ -431,6 +464,8 @@ def run(ctx):
             ok, log, binary = clusterlib.build_server()
             w = r["workload"]
             ctx.seed = w.get("seed", ctx.seed)
+            if w.get("race_binary"):
+                ok, log, binary = clusterlib.build_server(name="redisgo_verif_race", race=True)
             f, err, st = scenario(ctx, d, binary, w["clients"], w["ops_per_client"], kill=w.get("killed"), tag="replay")
             print(json.dumps(f or err or "scenario passes", indent=1, default=str))
             return 1 if (f or err) else 0
@@ -451,14 +486,24 @@ def run(ctx):
         if not ok:
             err = "server build failed: " + log[-1500:]
         else:
-            plan = [(9, 120, None)] if quick else [(9, 400, None), (12, 250, 0), (12, 250, 1), (12, 250, 2)]
-            for si, (ncl, nops, kill) in enumerate(plan):
+            plan = [(9, 120, None, False)] if quick else [(9, 400, None, False), (12, 250, 0, False), (12, 250, 1, False), (12, 250, 2, False),
+                                                          (9, 200, None, True), (12, 150, 1, True)]
+            race_binary = None
+            for si, (ncl, nops, kill, race) in enumerate(plan):
                 f, e, st = None, None, {}
+                use = binary
+                if race:
+                    if race_binary is None:
+                        okr, logr, race_binary = clusterlib.build_server(name="redisgo_verif_race", race=True)
+                        if not okr:
+                            err = "race build failed: " + logr[-1200:]
+                            break
+                    use = race_binary
                 for attempt in range(2):     # a start-up failure (port taken in between) is retried once
-                    f, e, st = scenario(ctx, d, binary, ncl, nops, kill=kill, tag="s%d" % si)
+                    f, e, st = scenario(ctx, d, use, ncl, nops, kill=kill, tag="s%d" % si)
                     if not (e and e.startswith("cluster start-up")):
                         break
-                vstats.append(dict(clients=ncl, ops_per_client=nops, killed_node=None if kill is None else kill + 1, **st))
+                vstats.append(dict(clients=ncl, ops_per_client=nops, killed_node=None if kill is None else kill + 1, race_detector=race, **st))
                 known.update(st.get("known") or {})
                 if f:
                     failing = f
@@ -486,10 +531,11 @@ def run(ctx):
         evaluations=nbatches + tot_ops,
         ready_batches=nbatches, cluster_scenarios=vstats, client_operations=tot_ops,
         linearizability_states_explored=sum(v.get("explored", 0) for v in vstats),
-        distinct_nontrivial=nbatches,
+        distinct_nontrivial=len(NONTRIVIAL) + sum(v.get("keys", 0) for v in vstats),
         rule="(D) seeded logs of 0-39 entries (commands and leader no-op entries) with index base in {0,1,5,1000,2^32,2^61} and 1-24 Ready batches each, "
              "a batch being a window of the log that starts at or before appliedIndex+1 (contiguous / overlapping / entirely old / empty / longer than the log); "
-             "every batch is a distinct (log, appliedIndex, window) triple and counts as non-trivial; (V) 9-12 concurrent clients spread over the 3 nodes, "
+             "distinct_nontrivial = distinct (log kinds, window, entries applied before) triples whose window carries entries and either applies one "
+             "or overlaps the applied prefix, plus the number of per-key histories checked for linearizability; (V) 9-12 concurrent clients spread over the 3 nodes, "
              "each a seeded random stream of SET/GET/DEL on 3 registers, INCR/GET on 2 counters, RPUSH/LPOP/LRANGE on 2 lists and PING <token>, "
              "unique written values; thorough adds kill -9 + restart of each node in turn during the load",
         samples=["CASE a1_0 0 ccec / W 0 2 / W 1 3 / W 0 1 -> B 2 2 1,2 / B 2 4 3 / B 0 4", "O <inv_us> <resp_us> :3 incr c0 (one line of a recorded history)"],
